@@ -342,6 +342,11 @@ class Weaver:
                 if cmd == 'item':
                     self.do_item(pos, opts, i + 1)
                     i += 1
+                elif cmd == 'obprefix':
+                    # obligation names of the following functions are `<prefix><fn>#<label>` (aligns them with the
+                    # names the Kani harnesses of the same functions use, so that a failure is reported once)
+                    self.obprefix = pos[0] if pos else ''
+                    i += 1
                 elif cmd == 'impl':
                     rel, hdr = pos[0], pos[1]
                     src = self.src(rel)
@@ -419,7 +424,7 @@ class Weaver:
         m = LABEL_RE.match(text)
         if not m:
             return text, None
-        ob = dict(cls=m.group(1), props=m.group(2).split(','), name=(m.group(3) if '#' in m.group(3) else '%s#%s' % (fn, m.group(3))), fn=fn, section=section, text=text[m.end():].strip(), tmpl_line=tline)
+        ob = dict(cls=m.group(1), props=m.group(2).split(','), name=(m.group(3) if '#' in m.group(3) else '%s%s#%s' % (getattr(self, 'obprefix', ''), fn, m.group(3))), fn=fn, section=section, text=text[m.end():].strip(), tmpl_line=tline)
         return text[:m.start()] + text[m.end():], ob
 
     def emit_spec(self, payload, fn, section):
